@@ -147,6 +147,12 @@ func c15Exchanges(e *vh.Env, c c15Case) []c15Ex {
 		sc2 := body("application/json", n, false, "cl", 1)
 		sc2.Headers = append(sc2.Headers, [2]string{"Content-Encoding", "br"})
 		add(fmt.Sprintf("backend says br %d", n), "GET", "gzip, br", true, sc2)
+		// the same without an explicit WriteHeader (reaches the plugin as such at handler level)
+		sc3, sc4 := sc, sc2
+		sc3.Implicit, sc4.Implicit = true, true
+		sc4.Framing = ""
+		add(fmt.Sprintf("backend already gzip %d implicit WriteHeader", n), "GET", "gzip", true, sc3)
+		add(fmt.Sprintf("backend says br %d implicit WriteHeader", n), "GET", "gzip, br", true, sc4)
 	}
 	// statuses and bodiless
 	for _, st := range []int{201, 204, 301, 304, 404, 500} {
